@@ -1,5 +1,5 @@
 (** Result monad for modelling Rust panics, and list helpers the 8.16 stdlib lacks. *)
-From Coq Require Export List Arith Lia Bool.
+From Coq Require Export List Arith NArith Lia Bool.
 Export ListNotations.
 Set Implicit Arguments.
 
